@@ -26,9 +26,18 @@ TInit == /\ tid \in 1..Len(Traces)
             InitWith([kind |-> t.kind, nLab |-> t.nLab, prior |-> t.prior,
                       retStd |-> t.retStd, retEnt |-> t.retEnt], t.labelMean)
 
+\* the kernel regressors document that a training set whose LABELED samples all have weight zero is rejected
+\* by fit (weights of unlabeled samples do not count); T.zeroLabeledWeights marks such training sets
+ZeroW == "zeroLabeledWeights" \in DOMAIN T /\ T.zeroLabeledWeights
 TFit == /\ IsEvent("Fit")
         /\ C("case-in-table", case \in Cases /\ Cardinality(RowsOf(case)) = 1)
+        /\ C("all-zero-labeled-weights-are-rejected", ~ZeroW)
         /\ Fit
+TFitRejected == /\ IsEvent("FitRejected")
+                /\ C("only-all-zero-labeled-weights-are-rejected", ZeroW)
+                /\ phase' = "rejected"      \* (a documented refusal of the training set, not a failure of a call)
+                /\ row' = IF row = 0 THEN CHOOSE i \in RowsOf(case) : TRUE ELSE row
+                /\ UNCHANGED <<case, dMean, dStd, dEnt, pArity, pMean, pStd, pEnt, labelMean, sShape, sDig>>
 
 \* outside the envelope (improper kernel prior without a label) any call may
 \* fail; the trace ends there
@@ -79,7 +88,7 @@ TSampleAgain == /\ IsEvent("SampleAgain")
                 /\ C("same-random-state-same-samples", Ev.shape = sShape /\ Ev.dig = sDig)
                 /\ SampleAgain(Ev.shape, Ev.dig)
 
-TNext == TFit \/ TRaisedOutside \/ TDistRaised \/ TDist \/ TPredict \/ TPredictPlain \/ TSample \/ TSampleAgain
+TNext == TFit \/ TFitRejected \/ TRaisedOutside \/ TDistRaised \/ TDist \/ TPredict \/ TPredictPlain \/ TSample \/ TSampleAgain
 
 TSpec == TInit /\ [][TNext]_tvars
 
